@@ -99,7 +99,7 @@ def _shard(name, shard, nshards, tier, seed):
         c = Corr(name)
         kind = name.split('.')[-1]
         rng = np.random.default_rng([seed, shard, 8, sum(map(ord, name))])
-        n = (160 if tier == 'quick' else 1600) // nshards + 1
+        n = (160 if tier == 'quick' else 6400) // nshards + 1
         ops, impls, sigs = [], [], []
         for _ in range(n):
             try:
